@@ -180,24 +180,43 @@ fn num_cmp_exact_float_float() {
     check_pair(&a, &b);
 }
 
+// the int/float queries mix IEEE operations of the code with the integer-only spec;
+// cvc5 closes them in about a minute where the default SAT back end needs much longer (measured)
 #[kani::proof]
+#[kani::solver(cvc5)]
 fn num_cmp_exact_i64_float() {
     let a = Number::Int64(kani::any());
     let b = Number::Float64(kani::any());
     check_pair(&a, &b);
+}
+
+#[kani::proof]
+#[kani::solver(cvc5)]
+fn num_cmp_exact_float_i64() {
+    let a = Number::Int64(kani::any());
+    let b = Number::Float64(kani::any());
     check_pair(&b, &a);
 }
 
 #[kani::proof]
+#[kani::solver(cvc5)]
 fn num_cmp_exact_u64_float() {
     let a = Number::UInt64(kani::any());
     let b = Number::Float64(kani::any());
     check_pair(&a, &b);
+}
+
+#[kani::proof]
+#[kani::solver(cvc5)]
+fn num_cmp_exact_float_u64() {
+    let a = Number::UInt64(kani::any());
+    let b = Number::Float64(kani::any());
     check_pair(&b, &a);
 }
 
 /// the real order is a total order on triples (direct statement; long-running, thorough tier)
 #[kani::proof]
+#[kani::solver(cvc5)]
 fn num_cmp_total_order() {
     let a = any_number();
     let b = any_number();
@@ -251,32 +270,3 @@ fn num_views() {
     }
 }
 
-// ---- solver experiments (not registered) ----
-#[kani::proof]
-#[kani::solver(kissat)]
-fn xp_i64_float_kissat() {
-    let a = Number::Int64(kani::any());
-    let b = Number::Float64(kani::any());
-    check_pair(&a, &b);
-}
-#[kani::proof]
-#[kani::solver(z3)]
-fn xp_i64_float_z3() {
-    let a = Number::Int64(kani::any());
-    let b = Number::Float64(kani::any());
-    check_pair(&a, &b);
-}
-#[kani::proof]
-#[kani::solver(cvc5)]
-fn xp_i64_float_cvc5() {
-    let a = Number::Int64(kani::any());
-    let b = Number::Float64(kani::any());
-    check_pair(&a, &b);
-}
-#[kani::proof]
-#[kani::solver(bitwuzla)]
-fn xp_i64_float_bitwuzla() {
-    let a = Number::Int64(kani::any());
-    let b = Number::Float64(kani::any());
-    check_pair(&a, &b);
-}
